@@ -333,7 +333,7 @@ def balanced_partition(rng, node):
     return part(first), part(second)
 
 
-def gen_edit(rng, snap, fresh, malformed=False, queries=False, balanced=0.0, kinds=None, split_kind=None):
+def gen_edit(rng, snap, fresh, malformed=False, queries=False, balanced=0.0, kinds=None, split_kind=None, children=False):
     """one edit op generated from the current observable structure (queries=True: also read-only
     ["query", node, scope] operations, which only C02 executes; balanced = probability that a split takes
     the LARGEST node and a near-square partition of its legs, see balanced_partition; kinds / split_kind
@@ -345,9 +345,23 @@ def gen_edit(rng, snap, fresh, malformed=False, queries=False, balanced=0.0, kin
         kinds = ["contract"] * 4 + ["split"] * 5 + ["insert_identity", "rename", "replace_tensor", "access", "access"]
         if queries:
             kinds = kinds + ["query"] * 4
+        if children:
+            kinds = kinds + ["contract_children"] * 3
     k = rng.choice(kinds)
     if k == "query":
         return ["query", rng.choice(ids), rng.choice(["node", "node", "all", "contract"])]
+    if k == "contract_children":
+        # ["contract_children", node, new]: the public composite contract_all_children(node, new_identifier) - all children
+        # of the node are contracted into it, one after the other in the order of its children list; identifier: default
+        # (None: the node's own), the node's own given explicitly, or a fresh one. Half of the time the node with the MOST
+        # children is taken (1, 2, 3+ children all occur), else any node (a leaf: nothing to contract).
+        with_ch = [x for x in ids if nodes[x][2]]
+        if with_ch and rng.random() < 0.5:
+            n = max(with_ch, key=lambda x: len(nodes[x][2]))
+        else:
+            n = rng.choice(with_ch if with_ch and rng.random() < 0.85 else ids)
+        new = rng.choice([None, n, fresh(), fresh()])
+        return ["contract_children", n, new]
     if k == "contract" and edges:
         p, c = rng.choice(edges)
         a, b = (p, c) if rng.random() < 0.5 else (c, p)
@@ -459,6 +473,152 @@ def gen_edit(rng, snap, fresh, malformed=False, queries=False, balanced=0.0, kin
     return ["access", rng.choice(ids)]
 
 
+REJECT_KINDS = ["contract", "split", "split", "rename", "replace_tensor", "replace_tensor", "replace_tensor", "insert_identity", "access",
+                "contract_children"]
+
+
+def gen_reject(rng, op, snap, stale):
+    """a call of the same kind as the documented-valid `op` that the library must REJECT (it raises, the caller
+    catches the exception and keeps using the network): a wrong argument of the kind a caller gets wrong -
+    contract: two nodes that are no neighbours, or a stale identifier (one that was freed by an earlier rename /
+              contraction / split, `stale`; 'nonexistent' if there is none yet);
+    split:    a leg specification that names a stale / non-neighbouring node, or a leg partition that misses one open
+              leg or names one twice;
+    rename / access / contract_children: of a stale identifier;
+    replace_tensor: the transposed tensor handed over WITHOUT its permutation, or with a permutation that does not
+              bring it back to the node's shape (only when the shapes then really differ);
+    insert_identity: the two nodes in the wrong order, or two nodes that are no neighbours.
+    Only rejections the library decides BEFORE it starts writing are generated (a rename to an identifier in use and a
+    split whose two specifications both claim the parent / root are rejected half-way by the unchanged library, see
+    the coverage text). Returns the op or None when no such variant exists here."""
+    nodes = {n[0]: n for n in snap["nodes"]}
+    ids = list(nodes)
+    gone = stale() or "nonexistent"
+    adjacent = lambda x, y: nodes[x][1] == y or nodes[y][1] == x
+    k = op[0]
+    if k == "contract":
+        _, a, b, new = op
+        far = [(x, y) for x in ids for y in ids if x != y and not adjacent(x, y)]
+        if far and rng.random() < 0.6:
+            x, y = rng.choice(far)
+            return ["contract", x, y, new if new not in (a, b) else rng.choice([x, y])]
+        return ["contract", a, gone, new if new != b else None] if rng.random() < 0.5 else ["contract", gone, b, new if new != a else None]
+    if k == "split":
+        op = copy.deepcopy(op)
+        o, i = op[2], op[3]
+        opens = o["open"] + i["open"]
+        chs = o["children"] + i["children"]
+        which = rng.randrange(3)
+        if which == 0 and opens:
+            d = o if (o["open"] and (not i["open"] or rng.random() < 0.5)) else i
+            if rng.random() < 0.5:
+                d["open"] = d["open"][:-1]                                   # a leg is missing from the partition
+            else:
+                (i if d is o else o)["open"].append(d["open"][0])             # a leg is named twice
+            return op
+        d = rng.choice([o, i])
+        others = [x for x in ids if x != op[1] and not adjacent(x, op[1])]
+        wrong = rng.choice(others) if others and rng.random() < 0.5 else gone
+        if chs and rng.random() < 0.6:
+            d = o if (o["children"] and (not i["children"] or rng.random() < 0.5)) else i
+            d["children"][rng.randrange(len(d["children"]))] = wrong            # typo / stale identifier of a child
+        else:
+            d["children"] = d["children"] + [wrong]
+        return op
+    if k == "rename":
+        return ["rename", op[1] if op[1] != op[2] else gone + "_", gone]
+    if k == "access":
+        return ["access", gone]
+    if k == "contract_children":
+        return ["contract_children", gone, op[2] if op[2] != op[1] else gone]
+    if k == "insert_identity":
+        _, c, p, new = op
+        far = [(x, y) for x in ids for y in ids if x != y and not adjacent(x, y)]
+        if far and rng.random() < 0.5:
+            x, y = rng.choice(far)
+            return ["insert_identity", x, y, new]
+        return ["insert_identity", p, c, new]
+    if k == "replace_tensor":
+        _, n, q, pinv = op
+        _, par, ch, perm, shape, _ = nodes[n]
+        cur = [shape[x] for x in perm]
+        nl = len(cur)
+        for _ in range(8):
+            q2 = list(range(nl))
+            rng.shuffle(q2)
+            new_shape = [cur[x] for x in q2]
+            if rng.random() < 0.5:
+                if new_shape != cur:
+                    return ["replace_tensor", n, q2, None]                      # the permutation was forgotten
+            else:
+                p2 = list(range(nl))
+                rng.shuffle(p2)
+                if [new_shape[x] for x in p2] != cur:
+                    return ["replace_tensor", n, q2, p2]                        # a wrong permutation
+        return None
+    return None
+
+
+class LiveDriver(Driver):
+    """wmodel.Driver plus (a) the composite operation ["contract_children", node, new] =
+    TreeTensorNetwork.contract_all_children(node, new_identifier=new) and (b) `live`: when the library REJECTS a call the
+    network is NOT restored from a backup - the caller has caught the exception and keeps using the very same object
+    (the backup is kept in `self.backup` so that the harness can go on after it has reported a damaged network)."""
+    live = False
+    backup = None
+
+    def apply(self, op):
+        live_obj = self.ttn
+        ok, err = Driver.apply(self, op)          # on an exception: self.ttn = deep copy taken before the call
+        if self.live and not ok:
+            self.backup, self.ttn = self.ttn, live_obj
+        return ok, err
+
+    def _apply(self, op):
+        if op[0] == "contract_children":
+            _, n, new = op
+            if new is None:
+                self.ttn.contract_all_children(n)
+            else:
+                self.ttn.contract_all_children(n, new_identifier=new)
+            return
+        return Driver._apply(self, op)
+
+
+def rejected_call_changes(pre, pre_raws, ttn, named):
+    """What did a REJECTED call do to the network? Returns (message or None, flushed): message = a difference between the
+    public state before (`pre`, `pre_raws`) and now; the only difference tolerated is that a node the call NAMED has had
+    its pending leg permutation carried out (stored array transposed by it, permutation reset, recorded shape
+    accordingly), which is what a plain access `ttn.tensors[id]` does and is listed by the property as an operation of
+    its own (`flushed` = those nodes)."""
+    post = snapshot(ttn)
+    if post["root"] != pre["root"]:
+        return f"root_id was {pre['root']}, is {post['root']}", []
+    if [n[0] for n in post["nodes"]] != [n[0] for n in pre["nodes"]]:
+        return f"node keys were {[n[0] for n in pre['nodes']]}, are {[n[0] for n in post['nodes']]}", []
+    if post["tkeys"] != pre["tkeys"]:
+        return f"tensor keys were {pre['tkeys']}, are {post['tkeys']}", []
+    flushed = []
+    for a, b in zip(pre["nodes"], post["nodes"]):
+        k = a[0]
+        raw0, raw1 = pre_raws[k], ttn._tensors.data[k]
+        if a == b:
+            if raw0.shape != raw1.shape or not np.array_equal(raw0, raw1):
+                return f"stored tensor of {k} changed", []
+            continue
+        if a[:3] != b[:3] or a[5] != b[5]:
+            return f"node {k} was (parent, children) = {a[1:3]}, is {b[1:3]} (identifier {b[5]})", []
+        perm = a[3]
+        if (k in named and b[3] == list(range(len(perm))) and b[4] == [a[4][x] for x in perm] and raw1.shape == tuple(b[4])
+                and np.array_equal(raw1, raw0.transpose(perm))):
+            flushed.append(k)
+            continue
+        return (f"node {k} had leg permutation {a[3]} / recorded shape {a[4]} / stored array of shape {list(raw0.shape)}, now has "
+                f"{b[3]} / {b[4]} / {list(raw1.shape)}" + ("" if raw0.shape != raw1.shape or not np.array_equal(raw0, raw1) else
+                                                           " with the stored array untouched")), []
+    return None, flushed
+
+
 def gen_large_build(rng, flavour, thorough=False):
     """LARGE members of the tree / shape families (the property quantifies over all trees and all nodes;
     shortcuts taken only above a size threshold are not reached by legs of dimension 1-3 on 1-7 nodes):
@@ -538,6 +698,9 @@ def applicable(op, snap):
             if nodes[a][1] != b and nodes[b][1] != a:
                 return False
             return new is None or new not in ids - {a, b}
+        if k == "contract_children":
+            _, n, new = op
+            return n in ids and (new is None or new == n or new not in ids)
         if k == "rename":
             _, new, old = op
             return old in ids and (new == old or new not in ids)
@@ -598,6 +761,8 @@ def failure_kind(what):
     what = str(what)
     if "query" in what:
         return "query"
+    if "the REJECTED call" in what:
+        return "rejected-call"
     if what.startswith("valid operation"):
         return "rejected"
     if what.startswith("exception"):
@@ -637,7 +802,24 @@ class C02(Prop):
             "tensor replacement with a permutation at one of its ends; the random edits that follow split the largest node near-square with probability 1/2 "
             "(distribution `split:QR/SVD/replace new bond 101..256 / >256`). The dense oracle contracts networks with more than 52 bonds + open legs pairwise "
             "(np.tensordot, leaves upwards) instead of skipping them. The shrinker only drops operations when every remaining one is "
-            "still documented-valid where it is applied and the failure stays of the same class.")
+            "still documented-valid where it is applied (or is rejected) and the failure stays of the same class. "
+            "ERROR / RETRY paths on the LIVE object (`retry`, a third of the valid cases; distribution `rejected-call:<operation>:<exception>`): before an edit, with "
+            "probability 0.35, a call of a random kind that the library must REJECT is made on the network itself - contract of two nodes that are no neighbours or of a "
+            "STALE identifier (freed earlier in this history by a rename / contraction / split); split (QR / SVD / replacement) with a leg specification naming a stale or "
+            "non-neighbouring node, or a leg partition that misses an open leg or names one twice; rename / access / contract_all_children of a stale identifier; "
+            "replace_tensor with the transposed tensor handed over WITHOUT its permutation or with a wrong one (only when the shapes then differ); insert_identity with the "
+            "nodes in the wrong order or no neighbours - the exception is caught and the SAME object is used further (no restore from a backup as in the malformed stream): "
+            "mostly the corrected call follows (after a look-up when look-ups are on), else the next random edit. Right after the rejected call the oracle demands the network "
+            "as it was: root, node and tensor key orders, links, leg permutations, recorded shapes and stored arrays identical, except that a node NAMED by the call may have had "
+            "its pending permutation carried out exactly as a plain access does (stored array = old array transposed by it, permutation reset; counted in the distribution), "
+            "well-formed, same dense contraction; the model's step returns an error, its store is compared with the state before the call, and the observed accesses are "
+            "replayed on it as `Access` steps so that the exact tie goes on. Only rejections decided before the library starts writing are generated: a rename to an identifier "
+            "IN USE and a split whose two specifications both claim the parent / root are rejected half-way by the unchanged library (reported to the lead, not generated). "
+            "COMPOSITE contractions (`allch`, half of the cases; distribution `contract_children:<0|1|2|3+> children:<default|own|fresh> id`): the public "
+            "contract_all_children(node, new_identifier) on the node with the most children or a random one (a leaf: nothing happens), identifier default (None = the node's "
+            "own), the node's own given explicitly, or fresh; modelled as the sequence Contract(node, child1, new), Contract(new, child2, new), ... of the Coq model in the "
+            "order of the children list (after the first contraction the node carries the new identifier), implementation observed after the whole composite and tied to the "
+            "model's last state; oracle as for single contractions (the node's open legs first, then the children's in children-list order, result under the documented identifier).")
     clauses = [
         ("F", "store invariant wfb (one root, symmetric links, equal key sets, permutations, recorded shapes = raw tensor dims, edge-wire consistency, "
               "no other sharing, acyclic) is preserved by access, contract (fresh/reused identifier), split (QR 3 modes / SVD / replacement, any admissible "
@@ -666,7 +848,11 @@ class C02(Prop):
               "on every reachable state, by vm_compute"),
         ("O", "kernel factors (QR/SVD/explicit) are fresh atoms whose product over the new bond equals the input; validated numerically through the dense oracle, "
               "also for new bonds of dimension 101..300 (thorough ..500) by every split kind (an 'untruncated' SVD must keep ALL min(rows, cols) singular values, as the model's bond dimension says)"),
-        ("V", "model = code: exact step-by-step correspondence (structure, dict orders, leg permutations, shapes, every tensor against its diagram)"),
+        ("V", "model = code: exact step-by-step correspondence (structure, dict orders, leg permutations, shapes, every tensor against its diagram); "
+              "contract_all_children = the sequence of Contract steps over the children list (tied after the last one)"),
+        ("V", "a REJECTED call (exception caught, same object used further) leaves the network as it was up to a plain access of a node it names: judged by the oracle on the "
+              "live object right after the call; in the model `step` returns None and `run` keeps the store (TTN/Store.v run / run_obs), so the preservation theorems apply to the "
+              "history with the rejected call left out plus the observed Access steps"),
         ("V", "the library's own full contraction (completely_contract_tree, every public route) of the live network - one node or many, with or without pending "
               "leg permutations - equals the dense contraction of the stored tensors with the open legs in depth-first node order, returns the depth-first order "
               "and (to_copy=True) leaves the network untouched: judged by the oracle only (Contr/TensorProd.v models it as a store program for C04)"),
@@ -688,7 +874,9 @@ class C02(Prop):
                           "nedits": rng.randrange(1, 13), "malformed": (j % 6 == 5), "ints": (j % 3 != 0),
                           # history / configuration families (absent = off, as in older replay files)
                           "queries": j % 2 == 1, "recycle": j % 4 in (1, 2), "exchange": j % 4 == 3 or j % 8 == 1,
-                          "mixed": j % 8 in (0, 5), "collapse": j % 5 == 2})
+                          "mixed": j % 8 in (0, 5), "collapse": j % 5 == 2,
+                          # round 7: error / retry paths on the LIVE object; the composite contract_all_children
+                          "retry": j % 6 in (1, 4), "allch": j % 6 in (0, 2, 4)})
         # LARGE members (see gen_large_build): a few per run, more and larger ones in the thorough tier
         nl = ctx.scale(6, 60) * budget_scale
         step = max(1, len(cases) // nl)
@@ -698,7 +886,8 @@ class C02(Prop):
             cases.insert(min(len(cases), j * (step + 1) + step // 2), {"seed": rng.randrange(10 ** 9), "nnodes": 2, "nedits": rng.randrange(2, 9), "malformed": False,
                           "ints": j % 2 == 0, "large": fl, "thorough": ctx.thorough(),
                           "queries": j % 2 == 0, "recycle": j % 4 == 1, "exchange": j % 6 == 5, "mixed": j % 4 == 3,
-                          "collapse": (fl == "legs" or (fl == "nodes" and ctx.thorough())) and j % 2 == 1})
+                          "collapse": (fl == "legs" or (fl == "nodes" and ctx.thorough())) and j % 2 == 1,
+                          "retry": j % 3 == 1, "allch": j % 2 == 1})
         return cases
 
     def nontrivial(self, case):
@@ -712,7 +901,7 @@ class C02(Prop):
             else:
                 c[f"nodes={x['nnodes']}"] += 1
             c["malformed" if x["malformed"] else "valid"] += 1
-            fam = [f for f in ("queries", "recycle", "exchange", "mixed", "collapse", "large") if x.get(f)]
+            fam = [f for f in ("queries", "recycle", "exchange", "mixed", "collapse", "large", "retry", "allch") if x.get(f)]
             for f in fam:
                 c["family:" + f] += 1
             if not fam:
@@ -724,7 +913,10 @@ class C02(Prop):
     def _run_case(self, case):
         rng = random.Random(case["seed"])
         kw = {"mixed": True} if case.get("mixed") else {}
-        drv = Driver(nprs=np.random.RandomState(case["seed"] % (2 ** 31)), ints=2 if case.get("ints") else None, **kw)
+        drv = LiveDriver(nprs=np.random.RandomState(case["seed"] % (2 ** 31)), ints=2 if case.get("ints") else None, **kw)
+        retry = bool(case.get("retry")) and not case.get("malformed")
+        drv.live = retry
+        allch = {"children": True} if case.get("allch") else {}
         counter = [0]
         ever = set()          # every identifier that was in the network at some time
         handed = set()        # identifiers handed out for the operation being generated
@@ -869,7 +1061,30 @@ class C02(Prop):
                 forced.append(forced_identity)
             if rng.random() < 0.5:
                 forced.append(forced_replace)
+        def stale():
+            free = sorted(ever - set(drv.ttn.nodes))
+            return rng.choice(free) if free else None
+
+        def gen_retry(snap):
+            # a call the library must REJECT (see gen_reject), derived from a documented-valid call of a random kind; the
+            # caller catches the exception and goes on with the same object: mostly with the corrected call (after a
+            # look-up, when look-ups are on), else with whatever comes next
+            kd = rng.choice(REJECT_KINDS)
+            if kd == "contract_children" and not allch:
+                kd = "access"
+            good = gen_edit(rng, snap, fresh, kinds=[kd], children=bool(allch))
+            bad = gen_reject(rng, good, snap, stale)
+            if bad is None:
+                return []
+            seq = [bad]
+            if case.get("queries") and rng.random() < 0.5:
+                seq.append(["query", rng.choice([n[0] for n in snap["nodes"]]), rng.choice(["node", "all", "contract"])])
+            if rng.random() < 0.6:
+                seq.append(good)
+            return seq
         pending = []
+        mops = []             # what the Coq model runs and the tie compares (see _mops)
+        msteps = []
         ops = case.get("ops")
         replay = ops is not None
         steps = []
@@ -905,8 +1120,12 @@ class C02(Prop):
                     pending = gen_exchange()
                     if pending:
                         continue
+                if retry and rng.random() < 0.35:
+                    pending = gen_retry(snapshot(drv.ttn))
+                    if pending:
+                        continue
                 op = gen_edit(rng, snapshot(drv.ttn), fresh, malformed=case["malformed"] and rng.random() < 0.4,
-                              **({"queries": True} if case.get("queries") else {}), **({"balanced": 0.5} if large else {}))
+                              **({"queries": True} if case.get("queries") else {}), **({"balanced": 0.5} if large else {}), **allch)
                 nedits += 1
             elif not replay and collapse[0]:
                 pending = gen_collapse()
@@ -920,8 +1139,8 @@ class C02(Prop):
                 except Exception as e:  # noqa
                     viol = viol or f"initial network not contractible: {e}"
             pre = snapshot(drv.ttn)
-            if inapplicable is None and len(applied) >= build_len and not case.get("malformed") and not applicable(op, pre):
-                inapplicable = op
+            valid = len(applied) < build_len or applicable(op, pre)
+            pre_raws = {kk: np.array(v) for kk, v in drv.ttn._tensors.data.items()} if retry else None
             if op[0] == "query":
                 # read-only look-ups on the live network: answers judged against the public state, and
                 # the state (structure, stored arrays) must be untouched afterwards
@@ -952,11 +1171,70 @@ class C02(Prop):
                 continue
             ok, err = drv.apply(op)
             applied.append(op)
+            if ok and not valid and inapplicable is None and not case.get("malformed"):
+                inapplicable = op          # outside the documented preconditions and yet accepted (never generated; the shrinker avoids it)
             if ok and tokens is not None:
                 tokens = self._tokens_after(op, tokens, pre)
+            flushed = []
+            if retry and not ok:
+                # the library REJECTED the call and the caller keeps using the same object: it must be as it was
+                self._opstats["rejected-call:" + op[0] + ":" + str(err).split(":")[0]] += 1
+                named = {x for x in op[1:] if isinstance(x, str)}
+                try:
+                    w, flushed = rejected_call_changes(pre, pre_raws, drv.ttn, named)
+                    w = w or well_formed(drv.ttn)
+                except Exception as e:  # noqa
+                    w = f"the network cannot be inspected any more ({type(e).__name__}: {e})"
+                if w is None and dense0 is not None and tokens is not None:
+                    try:
+                        d = dense_by_tokens(drv.ttn, tokens, big=True)
+                        if d is not None and (d.shape != dense0.shape or not np.allclose(
+                                d, dense0, rtol=1e-9, atol=1e-9 * max(1.0, float(np.max(np.abs(dense0))) if dense0.size else 1.0))):
+                            w = "full contraction changed"
+                    except Exception as e:  # noqa
+                        w = f"contraction with the documented leg order failed: {e}"
+                if flushed:
+                    self._opstats["rejected-call carried out a pending permutation (= plain access)"] += 1
+                if w:
+                    if viol is None and len(applied) > build_len:
+                        viol = f"after the REJECTED call {op} ({err}) the network is not as it was: {w}"
+                    drv.ttn = drv.backup      # go on with the state before the call
+                    flushed = []
             snap = snapshot(drv.ttn)
             raws = {kk: np.array(v) for kk, v in drv.ttn._tensors.data.items()}
-            steps.append({"ok": ok, "err": err, "snap": snap, "raws": raws, "exact": drv.exact})
+            st = {"ok": ok, "err": err, "snap": snap, "raws": raws, "exact": drv.exact, "valid": valid}
+            steps.append(st)
+            # the model's side of this operation
+            if op[0] == "contract_children":
+                # modelled as the sequence of node contractions it is composed of: Contract(node, child1, new),
+                # Contract(new, child2, new), ... (after the first one the node carries the new identifier); the
+                # implementation is observed after the whole composite only
+                nd = [x for x in pre["nodes"] if x[0] == op[1]]
+                chs = list(nd[0][2]) if nd else []
+                new = op[2] if op[2] is not None else op[1]
+                if ok:
+                    self._opstats[f"contract_children:{min(len(chs), 3)}{'+' if len(chs) >= 3 else ''} children:"
+                                  + ("default id" if op[2] is None else "own id" if op[2] == op[1] else "fresh id")] += 1
+                    cur_id = op[1]
+                    for j, c in enumerate(chs):
+                        mops.append(["contract", cur_id, c, new])
+                        msteps.append(st if j == len(chs) - 1 else {"ok": True, "skip": True})
+                        cur_id = new
+                elif nd and chs:
+                    # rejected although the node is there: the model's first contraction decides (tie on the verdict)
+                    mops.append(["contract", op[1], chs[0], new])
+                    msteps.append(st)
+            elif flushed:
+                # model: the rejected call leaves the store as it was (compared with the state BEFORE the call), then the
+                # plain accesses the call has been seen to perform
+                mops.append(op)
+                msteps.append(dict(st, snap=pre, raws=pre_raws))
+                for j, f in enumerate(flushed):
+                    mops.append(["access", f])
+                    msteps.append(dict(st, ok=True) if j == len(flushed) - 1 else {"ok": True, "skip": True})
+            else:
+                mops.append(op)
+                msteps.append(st)
             self._opstats[op[0] + (":ok" if ok else ":rejected")] += 1
             if ok and op[0] == "split":
                 nb = self._new_bond(op, snap)
@@ -976,7 +1254,8 @@ class C02(Prop):
                                 viol = f"after {op}: full contraction changed (max diff {float(np.max(np.abs(d - dense0))):.3e})"
                     except Exception as e:  # noqa
                         viol = f"after {op}: contraction with the documented leg order failed: {e}"
-        return {"ops": applied, "steps": steps, "atoms": drv.atoms, "viol": viol, "build_len": build_len, "inapplicable": inapplicable}
+        return {"ops": applied, "steps": steps, "atoms": drv.atoms, "viol": viol, "build_len": build_len, "inapplicable": inapplicable,
+                "mops": mops, "msteps": msteps}
 
     @staticmethod
     def _new_bond(op, snap):
@@ -1006,6 +1285,15 @@ class C02(Prop):
             tn = t.pop(n)
             t[oid] = [tn[j - nvirt] for j in o["open"]]
             t[iid] = [tn[j - nvirt] for j in i["open"]]
+        elif k == "contract_children":
+            # documented: the children are contracted into the node one after the other (children-list order), each
+            # contraction puts the open legs of its first operand (the node so far) before those of the child
+            nd = [x for x in pre["nodes"] if x[0] == op[1]][0]
+            if nd[2]:            # a leaf: nothing is contracted, the node keeps its identifier
+                acc = t.pop(op[1])
+                for c in nd[2]:
+                    acc = acc + t.pop(c)
+                t[op[2] if op[2] is not None else op[1]] = acc
         elif k == "insert_identity":
             t[op[3]] = []
         elif k == "rename":
@@ -1018,7 +1306,9 @@ class C02(Prop):
     @staticmethod
     def _mops(ob):
         """the operations the Coq model runs: read-only queries are not state transitions"""
-        return [o for o in ob["ops"] if o[0] != "query"]
+        if "mops" in ob:
+            return ob["mops"]
+        return [o for o in ob["ops"] if o[0] not in ("query", "contract_children")]
 
     def impl(self, ctx, cases):
         self._opstats = Counter()
@@ -1073,14 +1363,16 @@ class C02(Prop):
     def compare(self, case, ob, mo):
         if "exception" in ob:
             return f"harness/implementation exception: {ob['exception']}"
-        msteps = [st for st in ob["steps"] if not st.get("query")]
+        msteps = ob["msteps"] if "msteps" in ob else [st for st in ob["steps"] if not st.get("query")]
         mops = self._mops(ob)
         if len(mo) != len(msteps):
             return "step count differs"
         for j, (st, (mok, mobs)) in enumerate(zip(msteps, mo)):
             op = mops[j]
             if st["ok"] != mok:
-                return f"step {j} {op}: implementation {'accepted' if st['ok'] else 'rejected (' + str(st['err']) + ')'} but model {'accepted' if mok else 'rejected'}"
+                return f"step {j} {op}: implementation {'accepted' if st['ok'] else 'rejected (' + str(st.get('err')) + ')'} but model {'accepted' if mok else 'rejected'}"
+            if st.get("skip"):
+                continue       # inside a composite operation: the implementation is observed after the whole composite
             d = wmodel.compare_snapshot(st["snap"], mobs)
             if d:
                 return f"step {j} {op}: {d}"
@@ -1107,7 +1399,7 @@ class C02(Prop):
         if not case.get("malformed"):
             # a documented-valid operation must not be rejected
             for op, st in zip(ob["ops"], ob["steps"]):
-                if not st["ok"] and not st.get("query"):
+                if not st["ok"] and not st.get("query") and st.get("valid", True):
                     return f"valid operation {op} rejected: {st['err']}"
         return None
 
